@@ -24,7 +24,7 @@ def gen(rng, tier):
     n = 3000 if tier == 'quick' else 60000
     for _ in range(n):
         mode = rng.choice(['small', 'small', 'small', 'wide'])
-        chroms = [R.chrom(rng) for _k in range(rng.choice([1, 1, 2, 3]))]
+        chroms = R.chrom_set(rng, rng.choice([1, 1, 2, 3]))
         a, b, c = rec(rng, mode, chroms), rec(rng, mode, chroms), rec(rng, mode, chroms)
         if rng.random() < 0.1:
             b = a
